@@ -135,6 +135,11 @@ def _random_job(k):
     shape = ["swept", "all", "dihedral", "tapered"][k % 4]
     fm = B.full_mesh(2, 2 * nyh - 1, shape, span=float(rng.uniform(8, 30)), chord=float(rng.uniform(1, 3)), rng=rng, jitter=0.03, asym=0.0 if sym else 0.4)
     mesh = B.half_of(fm, "L") if sym else fm
+    if not sym and k % 4 == 1:
+        # full-span beam with an EVEN number of nodes (user mesh: one tip section more on the +y side).  The root node of a
+        # full-span beam is node (ny - 1) div 2 (KBeam.RootIndex; the code states no other convention): here the node at y = 0
+        mesh = mesh[:, 1:, :]
+        ny = ny - 1
     w = float(rng.uniform(0.2, 0.6))
     nodes = (1 - w) * mesh[0] + w * mesh[-1]
     E, G = float(rng.uniform(5e9, 2e11)), float(rng.uniform(2e9, 8e10))
